@@ -390,7 +390,8 @@ class Schema(dict, metaclass=LogicalMeta):
                 )
             super().__delitem__(field.name)
 
-        if field.name in self.__dict__:
+        if field.attname in self.__dict__:
+            # drop the attribute copy as well (it is kept under the attribute name, not the output name)
             self.__dict__.pop(field.attname)
 
     def __delitem__(self, key: str):
